@@ -605,6 +605,7 @@ def cmd_replay(prop, path):
     binpath = build_harness(harness)
     env = dict(os.environ)
     env.update(SAN_ENV)
+    env.update(spec.get('env', {}))
     r = subprocess.run([binpath, 'replay', path], env=env)
     return 0 if r.returncode == 0 else 1
 
@@ -655,6 +656,9 @@ def main(argv):
         return cmd_run(prop, tier, seed)
     if cmd == 'replay':
         return cmd_replay(argv[1], argv[2])
+    if cmd == 'bin':
+        print(build_harness(argv[1]))
+        return 0
     if cmd == 'baseline-off':
         return cmd_baseline_off()
     if cmd == 'mutants':
